@@ -32,7 +32,7 @@ RULE = ('histories of 5-40 operations {touch/new identity, new key (EC P-256, RS
         'key_locator overrides shared between keys, close+reopen}; fault sequences: k-th execute/commit/save_key/os.remove of '
         'an operation raises, operation repeated; crash points: connection abandoned at step k and reopened; distinct = the '
         'operation-kind sequence (+ fault position); non-trivial = at least two identities or keys alive'
-        '; identity names nested in each other / containing KEY, caller-chosen key ids (repeated), deletions through the Identity/Key views')
+        '; identity names nested in each other / containing KEY, caller-chosen key ids (repeated), deletions through the Identity/Key views; every failure point of every multi-step operation in turn (repeat and crash); set_default_* with non-member names; equal signer requests before/after every default change; several stores in one process holding keys of the same name')
 
 C = lambda s: rc.comp(8, s)   # noqa
 
